@@ -63,10 +63,10 @@ TEXTS = {
     "C17": {"engine": "inputs", "design_ref": "DESIGN.md 3/C17", "technique": "PBT: YAML round trip with an independent emitter, single-field corruptions vs. validity predicate, reflection-enumerated single edits vs. Equals",
             "level_text": "Generated definition sets are written as YAML by the harness's own emitter over generated directory layouts and must load to exactly what they say (twice, under different enumeration orders); each single-field corruption must be rejected or yield a result satisfying an independently written validity predicate; for Equals every edit site is enumerated by reflection over the definition structs (unknown field kinds fail the check), and each single edit must make Equals false in both directions.",
             "level_note": "Trusted: the harness's YAML emitter and deep-copy/mutator (checked: the mutator asserts that its edit changed the value); Go 1.23.5, rapid v1.3.0. A thorough-tier native fuzz target feeds raw YAML bytes."},
-    "C18": {"engine": "procs", "design_ref": "DESIGN.md 3/C18", "technique": "PBT with real processes: generated assignment of names to the three environment levels and per-job variables; precedence model and isolation oracle on the captured output",
+    "C18": {"engine": "procs", "design_ref": "DESIGN.md 3/C18", "technique": "PBT with real processes: generated assignment of names to the three environment levels and per-job variables; precedence model and isolation oracle on the captured output; the same oracle over the built program (generated pipelines.yml, program environment, dotenv file, HTTP)",
             "level_text": "Every case generates which of six names is defined at which of the three levels (process, pipeline, task) with values full of shell-significant characters, runs 2-5 concurrent jobs through the real TaskRunner/pgid executor/mvdan-sh, and reads back what a real child process (vhelper dumpenv), the interpreter's own expansion and the rendered script saw; the oracle is the precedence rule of the statement, byte for byte, plus isolation between jobs/tasks and the refusal of the reserved variable name.",
             "level_note": "Trusted: cmd/vhelper, /proc-free observation through the FileOutputStore, the harness's copy of the createTaskRunner wiring of app.appAction. Names are valid identifiers outside the shell's own variables (PATH, HOME, PWD, IFS, TASK_NAME are not used as names)."},
-    "C19": {"engine": "procs", "design_ref": "DESIGN.md 3/C19", "technique": "PBT with real processes: generated chunk sequences on both streams over several commands and concurrent jobs; byte-equality oracle against the log store and the log API",
+    "C19": {"engine": "procs", "design_ref": "DESIGN.md 3/C19", "technique": "PBT with real processes: generated chunk sequences on both streams over several commands and concurrent jobs; byte-equality oracle against the log store and the log API, also of the built program over HTTP",
             "level_text": "Each case runs 1-6 jobs x 1-4 tasks at the same time; every task has 1-4 commands that write generated, marker-prefixed chunks to stdout/stderr (0 B to 300 KB, 8 MB in the thorough tier, partial lines, binary or UTF-8), some through interpreter builtins; the oracle is byte equality between what was written, FileOutputStore.Reader and GET /job/logs, plus 404 for foreign tasks and unknown jobs.",
             "level_note": "Trusted: cmd/vhelper emit writes exactly its spec; the relative order between stdout and stderr is not defined by the statement and not asserted."},
     "C20": {"engine": "procs", "design_ref": "DESIGN.md 3/C20", "technique": "PBT over a process-tree grammar with real processes; /proc oracle after the job is reported finished; known findings excluded by construction and replayed",
@@ -79,7 +79,7 @@ ENGINES = [
      "kind_free_text": "controlled-schedule simulator: rapid state machine over the exported API of PipelineRunner with a harness-owned task runner, scheduler-loop hook and reference monitor"},
     {"name": "inputs", "path": "harness/inputs", "serves_properties": ["C17"], "kind_free_text": "pure generated-input properties (rapid) and native fuzz targets"},
     {"name": "storefs", "path": "harness/storefs", "serves_properties": ["C09", "C10"], "kind_free_text": "real JsonDataStore on disk: racing readers, SIGKILLed saver child (cmd/vhelper), strace fault injection"},
-    {"name": "procs", "path": "harness/procs", "serves_properties": ["C18", "C19", "C20"], "kind_free_text": "real TaskRunner + real processes + helper binary cmd/vhelper"},
+    {"name": "procs", "path": "harness/procs", "serves_properties": ["C04", "C08", "C11", "C14", "C16", "C17", "C18", "C19", "C20"], "kind_free_text": "real TaskRunner + real processes + helper binary cmd/vhelper; parts named *Binary run cmd/prunner built from the tree under test"},
     {"name": "stress", "path": "harness/stress", "serves_properties": ["C01", "C03", "C05", "C06", "C07", "C13", "C16"], "kind_free_text": "free-running concurrent workloads and forced-overlap request bursts, test binary built with -race"},
     {"name": "httpauth", "path": "harness/httpauth", "serves_properties": ["C14"], "kind_free_text": "router walk + generated credentials against the server's http.Handler"},
 ]
